@@ -558,8 +558,8 @@ class operators:
     _diff = ["order1", "order2"]
 
     E = virtual_operator(_operators.E, ["tau", "T1", "T2", "g"], [], _diff + _std)
-    P = virtual_operator(_operators.P, ["g"], [], _diff + _std)
-    R = virtual_operator(_operators.P, ["rT", "rL", "r0"], [], _diff + _std)
+    P = virtual_operator(_operators.P, ["tau", "g"], [], _diff + _std)
+    R = virtual_operator(_operators.R, ["rT", "rL"], ["r0"], _diff + _std)
     T = virtual_operator(_operators.T, ["alpha", "phi"], [], _diff + _std)
     Phi = virtual_operator(_operators.Phi, ["phi"], [], _diff + _std)
     S = virtual_operator(_operators.S, ["k"], [], _std)
